@@ -216,6 +216,45 @@ def rule_process(ctx):
             pay_ok = T.has_call(v[4][1], "::payload")
         ctx.check(ok and seq_ok and pay_ok, "R5", "store:%s" % flds[0], "segment (seq, payload) stored in %s only when src is the %s endpoint" % (flds[0], side),
                   "segment stored in %s under %s with seq=%s payload=%s" % (flds[0], sorted(ea), seq_ok, pay_ok), ctx.loc(b, blk))
+    # R2: every payload-carrying segment of a tracked connection is stored: a path through process_tcp_packet that stores nothing is
+    # explained by `no such flow`, `no payload`, `not from either endpoint` or `this direction is already parsed` - never by anything else
+    # (a FIN / PSH flag, a length, the position of the segment)
+    from ..engine import paths as PA
+    store_blocks = set()
+    for blk, t in Q.calls(b, "Vec::<T, A>::push"):
+        a = Q.call_args(b, S, blk, t)
+        if any(x[0] == "field" and x[2] in ("client_data", "server_data") for x in T.walk(a[0])):
+            store_blocks.add(blk)
+    trails, trunc = PA.enumerate_paths(b, 0, 8000)
+    unexplained = None
+    nskip = 0
+    for tr in trails:
+        if store_blocks & set(tr):
+            continue
+        nskip += 1
+        pc = [Q._norm_cmp(c) for c in PA.path_conds(P, b, S, tr)]
+        if PA.contradicts_constants(pc):
+            continue
+        excused = False
+        for c in pc:
+            if c[0] in ("variant", "variant_in") and (c[2] == "None" or (isinstance(c[2], tuple) and "None" in c[2])) and c[3] is True and \
+                    (T.has_call(c[1], "get_mut") or T.has_call(c[1], "::get") or any(x[0] == "call" and "TtlCache" in x[1] for x in T.walk(c[1]))):
+                excused = True          # untracked connection
+            if c[0] == "bool" and c[2] is True and T.has_call(c[1], "is_empty") and T.has_call(c[1], "::payload"):
+                excused = True          # no payload
+            if c[0] == "cmp" and c[1] == "Eq" and T.fold_int(c[3]) == 0 and T.has_call(c[2], "::len") and T.has_call(c[2], "::payload"):
+                excused = True
+            if c[0] == "cmp" and c[1] == "Ne" and any(x[0] == "field" and x[2] in ("client_ip", "client_port", "server_ip", "server_port") for y in (c[2], c[3]) for x in T.walk(y)):
+                excused = True          # not from that endpoint
+            if c[0] == "bool" and c[2] is True and any(x[0] == "field" and x[2] in ("client_http_parsed", "server_http_parsed") for x in T.walk(c[1])):
+                excused = True          # direction already reported
+        if not excused:
+            unexplained = [c[0] + ":" + (T.pp(c[2] if c[0] == "cmp" else c[1])[:50]) + ("=" + str(c[1] if c[0] == "cmp" else c[2])) for c in pc if c[0] in ("cmp", "bool", "variant")][-4:]
+            break
+    ctx.check(unexplained is None and not trunc and nskip > 0, "R2", "process_tcp_packet:segments-stored",
+              "a segment is not stored only when untracked / empty / foreign / already parsed (%d non-storing paths examined)" % nskip,
+              "a payload-carrying segment of a tracked connection can pass through process_tcp_packet without being stored, under %s: data carried by such a segment "
+              "(a FIN-piggybacked tail of the head) never reaches reassembly and the message is not reported" % unexplained, ctx.loc(b))
     # R5 flow creation
     ins = [(blk, t) for blk, t in Q.calls(b, "::insert") if "TtlCache" in callee_of(t)]
     if len(ins) != 1:
@@ -250,6 +289,28 @@ def rule_process(ctx):
             okk = (T.strip(m["client_ip"])[2] == "src_ip" and T.strip(m["server_ip"])[2] == "dst_ip" and T.strip(m["client_port"])[2] == "src_port"
                    and T.strip(m["server_port"])[2] == "dst_port" and T.strip(m["client_http_parsed"])[1] is False and T.strip(m["server_http_parsed"])[1] is False)
             ctx.check(okk, "R5", "TcpFlow::init", "client = (src), server = (dst), flags clear", "TcpFlow::init assigns roles %s" % {k: T.pp(v) for k, v in m.items()}, ctx.loc(ib))
+            # the first segment (the SYN, which may carry data: TCP Fast Open) is part of the client stream whatever it contains
+            # (`vec![x]` writes x through a raw pointer, so the element is not visible in the vector's origin term: the parameter must be
+            # moved somewhere on a block every return passes through, and nothing decides the construction)
+            pl = [i_ for i_ in range(1, ib.arg_count + 1) if ib.local_name(i_) == "tcp_data"]
+            use_blocks = set()
+            for bi_ in sorted(ib.reachable):
+                blk_ = ib.blocks[bi_]
+                ops_ = []
+                for s_ in blk_["s"]:
+                    r_ = s_.get("r") or {}
+                    ops_ += [r_.get(k_) for k_ in ("o", "a", "b") if isinstance(r_.get(k_), dict)] + list(r_.get("ops") or [])
+                if blk_["t"]["k"] == "call":
+                    ops_ += blk_["t"]["args"]
+                for o_ in ops_:
+                    p_ = o_.get("m") or o_.get("c")
+                    if p_ is not None and pl and p_["l"] == pl[0] and not p_["pr"]:
+                        use_blocks.add(bi_)
+            first_kept = bool(use_blocks) and all(C.dominates(ib, u_, rb) for u_ in use_blocks)
+            cond_free = not [c for c in Q.canon_conds(P, T.dom_conds(ib, T.Slicer(ib, P), rb)) if c[0] in ("bool", "cmp")]
+            ctx.check(first_kept and cond_free, "R2", "TcpFlow::init:first-segment", "client_data starts with the opening segment, unconditionally",
+                      "TcpFlow::init does not always keep the opening segment (client_data = %s): request bytes carried by the SYN are lost and the rebuilt stream starts "
+                      "mid-head" % T.pp(m["client_data"])[:60], ctx.loc(ib))
 
 
 def rule_flow_keys(ctx):
